@@ -5,8 +5,12 @@ use crate::phase_accumulator::PhaseAccumulator;
 const N24: u32 = 1 << 24;
 const MASK: u32 = N24 - 1;
 
+/// oscillator at phase `acc`; the bookkeeping field `last_accumulator` is arbitrary (set_phase()
+/// leaves it at 0 while the phase is not): no output may depend on it
 fn lfo_at(acc: u32) -> Lfo {
-    Lfo { phase_accumulator: PhaseAccumulator::verif_from_parts(1000.0, acc, acc, 0, false) }
+    let last: u32 = kani::any();
+    kani::assume(last <= MASK);
+    Lfo { phase_accumulator: PhaseAccumulator::verif_from_parts(1000.0, acc, last, 0, false) }
 }
 
 fn any_acc() -> u32 {
